@@ -206,6 +206,7 @@ def validate_cases(ctx, family, module, cfg, trace, prefix="", max_reject=8, deq
     if cases is None:
         cases = split_cases(trace)
     nev = sum(len(c[1]) for c in cases)
+    ctx.spec_dir(family)        # created once, before the parallel shards use it
     shards = shard_cases(cases, nshards or max(1, min(NCPU, nev // 15000)))
     rejected = []
 
